@@ -231,6 +231,10 @@ func (propC15) Judge(sc *Scenario) *Verdict {
 				if !isIdentityPerm(p) {
 					permuted++
 				}
+				if len(p) <= 4 {
+					// coverage cell: which orders each woven site was actually driven through
+					v.stat(fmt.Sprintf("cell.%s:%v", o.SchedSites[j], p))
+				}
 			}
 		}
 		obs := c15Observable(o)
